@@ -151,13 +151,15 @@ def files(ctx: Ctx):
         d = gen.gen_sge(ctx.rng, {'p_bg': 0.0, 'p_pam': 0.2, 'p_custom': 0.2, 'allow_junction_pam': False, 't_min': 1 if i % 5 == 0 else 8})
         if i % 3 == 0:
             d['opts']['sequences_only'] = True
+            if ctx.rng.random() < 0.5:
+                d['targetons'][0]['ref_start'] = 1       # a targeton touching the first base of its contig (constant region 1 grows)
         designs.append(d)
     # targetons on two contigs (no annotation / PAM / custom files: those are per-transcript features)
     for i in range(n // 4):
         d = gen.gen_sge(ctx.rng, {'p_gtf': 0.0, 'p_pam': 0.0, 'p_custom': 0.0, 'n_targetons': 2})
         c2 = gen.rand_dna(ctx.rng, 80 if i % 3 else len(d['ref']))
         d['extra_contigs'] = {'chr2': c2}
-        s = ctx.rng.randint(2, 30)
+        s = ctx.rng.randint(1 if i % 2 == 0 else 2, 30)       # base 1 only with --sequences-only (a deletion of the first base: known finding of C19)
         e = s + ctx.rng.randint(5, 40)
         p = ctx.rng.randint(s, e)
         q = ctx.rng.randint(p, e)
